@@ -4,7 +4,7 @@
    describe the ordered tree T; the theorems below say that then every traversal generator of
    the code (Model/Iter.v) returns what the pre-order walk of the child lists dictates. *)
 From Coq Require Import List Arith Bool.
-From BS Require Import Base.Sexp Model.Heap Model.Edit Model.Iter Spec.Tree Proofs.HeapBasics Proofs.Views Proofs.InsertRep.
+From BS Require Import Base.Sexp Model.Heap Model.Edit Model.Iter Spec.Tree Proofs.HeapBasics Proofs.Views Proofs.ExtractRep Proofs.InsertRep.
 Import ListNotations.
 
 (* what extract() hands back has no parent, no siblings and nothing before it — for every heap *)
@@ -81,3 +81,32 @@ Theorem C01_insert_rep : forall F Tp bp Tc h self position fuel h',
   rep ((insert_sub self pos Tc Tp, bp || (Nat.eqb self (rid Tp) && Nat.eqb pos 0)) :: F) h'.
 Proof. exact insert1_rep. Qed.
 Print Assumptions C01_insert_rep.
+
+(* extract() of any non-root element x re-links all six pointers so that the heap represents the
+   forest in which the tree has lost the subtree s rooted at x and s is a self-contained tree of
+   its own: no parent, no siblings, element chain closed on both ends, no link into the tree it
+   came from (that is what [rep] says of the new tree (s, true)).  Holds whether or not the
+   document root stands outside the element chain (b). *)
+Theorem C01_extract_rep : forall F T b h x T' s fuel,
+  rep ((T, b) :: F) h -> rid T <> x -> remove x T = (T', Some s) -> length (pre T) <= fuel ->
+  rep ((T', b) :: (s, true) :: F) (extract fuel h x).
+Proof. exact extract_rep. Qed.
+Print Assumptions C01_extract_rep.
+
+(* the side conditions of C01_extract_rep are satisfiable by every non-root element, and the
+   removed segment is contiguous in document order *)
+Theorem C01_remove_total : forall x T, In x (pre T) -> x <> rid T ->
+  exists T' s, remove x T = (T', Some s) /\ rid s = x.
+Proof. exact remove_found. Qed.
+Print Assumptions C01_remove_total.
+
+Theorem C01_remove_contiguous : forall x T T' s, rid T <> x -> remove x T = (T', Some s) ->
+  rid s = x /\ rid T' = rid T /\ exists A B, pre T = A ++ pre s ++ B /\ pre T' = A ++ B.
+Proof. exact remove_pre. Qed.
+Print Assumptions C01_remove_contiguous.
+
+(* extracting something that is already a root changes nothing *)
+Theorem C01_extract_root_rep : forall F T b h fuel,
+  rep ((T, b) :: F) h -> length (pre T) <= fuel -> rep ((T, b) :: F) (extract fuel h (rid T)).
+Proof. exact extract_root_rep. Qed.
+Print Assumptions C01_extract_root_rep.
